@@ -46,6 +46,13 @@ def models(tier):
         alpha += [("m", c, "cer_p0"), ("m", c, "cer_p1"), ("m", c, "cer_unknown"), ("eof", c)]
     out.append(monitors.ScenarioModel("second-lifetime-after-DPR", BASE, alpha, MONS, max_socks=3,
                                       prelude=[("accept",), ("m", 0, "cer_p0"), ("m", 0, "dpr")]))
+    # one application whose peers live in different realms; another one served by the second realm's peer only
+    xr = copy.deepcopy(BASE)
+    xr["peers"][1]["realm"] = "realm2.example"
+    alpha = [("accept",), ("tick", 1)]
+    for c in (0, 1, 2):
+        alpha += [("m", c, "cer_p0"), ("m", c, "cer_p1"), ("eof", c), ("m", c, "dpr")]
+    out.append(monitors.ScenarioModel("peers-in-two-realms", xr, alpha, MONS, max_socks=3))
     # many wake-up requests at once: one connection has 180 answers to write in the instant in which another one must be closed
     alpha = [("xn", 0, "dwr", 180, 1, "badlen"), ("xn", 1, "dwr", 180, 0, "badlen"), ("xn", 0, "dwr", 180, 1, "dpr"), ("eof", 0), ("eof", 1), ("tick", 1),
              ("m", 0, "dwr"), ("m", 1, "dwr")]
